@@ -331,8 +331,30 @@ DeepOK(r) ==
   /\ r.res \in {"ok", "err"}
   /\ r.levels > r.limit => r.res = "err"
 
+(***************************************************************************)
+(* cat: a concatenation of encodings of values of mixed types, decoded     *)
+(* value by value from one slice (C14): each value is recovered in order,  *)
+(* each step consumes exactly its encoding, nothing is left.               *)
+(***************************************************************************)
+CatOK(r) ==
+  LET n == Len(r.parts)
+      whole == FoldLeft(LAMBDA a, pt : a \o pt.out, <<>>, r.parts)
+      \* the specification decodes the concatenation the same way
+      walk == FoldLeft(LAMBDA a, i :
+                 IF ~a.ok THEN a
+                 ELSE LET pt == r.parts[i]
+                          d == Dec(pt.E, pt.ty, whole, a.p)
+                      IN [ok |-> /\ IsEncodingOf(pt.E, pt.ty, pt.v, pt.out)
+                                 /\ d.ok /\ d.v = pt.v /\ d.p = a.p + Len(pt.out)
+                                 /\ i <= Len(r.steps)
+                                 /\ r.steps[i].res = "ok" /\ r.steps[i].v = pt.v /\ r.steps[i].n = Len(pt.out),
+                          p |-> a.p + Len(pt.out)],
+              [ok |-> TRUE, p |-> 0], [i \in 1..n |-> i])
+  IN walk.ok /\ Len(r.steps) = n /\ r.rest = <<>>
+
 RecOK(r) ==
   CASE r.k = "enc" -> EncOK(r)
+    [] r.k = "cat" -> CatOK(r)
     [] r.k = "deep" -> DeepOK(r)
     [] r.k = "prog" -> ProgOK(r)
     [] r.k = "skipenc" -> SkipEncOK(r)
